@@ -11,9 +11,18 @@ search (spec) : groups of calls with the same input, settings and thread count, 
                 spawner (thread per job, fresh pool, pools of 1/2/4/15 workers reused across calls
                 and thread counts, inline), favor_cpu_efficiency on/off, build profile (dev/release)
                 and repetition: every member must return the same result and byte-identical output
-                (length + hash of the bytes), and the bytes must decode to the input
+                (length + hash of the bytes), and the bytes must decode to the input.
+                Group families: short inputs, prefixes longer than the window, general, input sizes on
+                both sides of every 2^k that ChooseHasher compares size_hint with (read from encode.rs;
+                no size hint given: whole input, one job's share), and scripted histories of one reused
+                pool (warm-up to an arbitrary slot of the 16-slot result ring, then > 40 results from
+                calls whose first job is slow and whose other jobs are fast: out-of-order completion
+                while the ring wraps).  A call that has not returned when the harness's watchdog gives
+                up is a member that differs (reported with the earlier calls on that pool and with the
+                result of the same call on a fresh pool); a harness process that dies leaves a failing
+                member, never an agreement.
 """
-import json, os, time
+import json, os, re, time
 import vlib
 from checks import multi_common as mc
 from checks.multi_common import Case
@@ -39,11 +48,28 @@ CORPUS = [
     ("text", 5000, 1, 4, 22, 0, 4, (1 << 20) + 1),
 ]
 
-MEMBERS = ["inl", "thr", "pool", "poolr:%d", "poolr:%d"]
-
-
 def heavy(q, w, n):
     return (q >= 10 and (w >= 20 or n > 30000)) or n > 400000
+
+
+size_hint_cuts = mc.size_hint_cuts
+
+
+def hasher_choice(q, w, size_hint):
+    """ChooseHasher: (type, bucket_bits) - used only to name the classes reached, never to judge"""
+    if q >= 10:
+        return (10, 0)
+    if q == 9:
+        return (9, 15)
+    if q == 4 and size_hint >= (1 << 20):
+        return (54, 0)
+    if q < 5:
+        return (q, 0)
+    if w <= 16:
+        return (40 if q < 7 else 41 if q < 9 else 42, 0)
+    if size_hint > (1 << 22) and w >= 19:
+        return (6, 15)
+    return (5, 14 if (q < 7 and size_hint <= (1 << 20)) else 15)
 
 
 def gen_groups(run, thorough):
@@ -85,6 +111,29 @@ def gen_groups(run, thorough):
             n = min(n, 70000)
         hint = rng.choice([0, 0, n, (1 << 20) + 1, (1 << 22) + 1])
         groups.append((rng.choice(["text", "rand", "zero", "period", "mix", "skew"]), n, rng.randrange(1, 100000), q, w, f, t, hint))
+    # sizes on both sides of every point where the choice of the match index depends on the (unknown, hint 0)
+    # input size: the whole input, one job's share of it, and a job's prefix straddle 2^k for every k
+    # that ChooseHasher compares size_hint with
+    for k in size_hint_cuts():
+        cut = 1 << k
+        reps = (3 if k <= 20 else 1) if not thorough else (8 if k <= 20 else 3)
+        if k > 22 and not thorough:
+            continue
+        for _ in range(reps):
+            for q in ([4, 5, 6, 7, 9] if k <= 20 else [5, 6, 8, 9]):
+                t = rng.choice([2, 2, 3, 4])
+                total = rng.choice([cut - 1, cut, cut + 1, cut + 1, cut + rng.randrange(2, 70000), cut + rng.randrange(2, 70000), cut - rng.randrange(2, 70000)])
+                what = rng.choice(["whole", "whole", "whole", "share"]) if k <= 20 else "whole"
+                n = total if what == "whole" else total * t + rng.randrange(0, t)     # "share": one job's chunk straddles the cut
+                # a job adopts the shared index only while its prefix fits the window: mostly windows that hold job 1's prefix
+                wmin = max(10, (n // t + 16).bit_length())
+                w = rng.choice(list(range(wmin, 25))) if (wmin <= 24 and rng.random() < 0.8) else rng.choice([16, 17, 18, 19, 20, 22, 24])
+                f = rng.choice([0, 0, 0, 1, 2, 4])
+                groups.append((rng.choice(["text", "text", "mix", "skew"]), n, rng.randrange(1, 100000), q, w, f, t, 0))
+        # and with an explicit hint on each side (the hint, not the size, must decide for every job alike)
+        for hint in (cut, cut + 1):
+            q = rng.choice([4, 5, 6, 7])
+            groups.append(("text", rng.choice([50000, cut + 5]) if k <= 20 else 50000, rng.randrange(1, 100000), q, rng.choice([18, 20, 22]), 0, rng.choice([2, 3]), hint))
     return groups
 
 
@@ -93,11 +142,54 @@ def members(run, g, profile):
     rng = run.rng
     w1, w2 = rng.choice([1, 2, 4, 15]), rng.choice([1, 2, 4, 15])
     out = []
+    if n > 400000:
+        # long inputs: fewer members, every spawner and both values of the option still present
+        for sp, fav in (("inl", 0), ("inl", 8), ("thr", 8), ("pool", 8), ("poolr:%d" % w1, 0), ("poolr:%d" % w1, 8)):
+            out.append(Case(sp, q, w, (f & ~8) | fav, t, kind, n, seed, "bound", hint, profile))
+        return out
     for fav in (0, 8):
         for sp in ("inl", "thr", "pool", "poolr:%d" % w1, "poolr:%d" % w1, "poolr:%d" % w2):
             out.append(Case(sp, q, w, (f & ~8) | fav, t, kind, n, seed, "bound", hint, profile))
     out.append(Case("inl", q, w, f & ~8, t, kind, n, seed, "bound", hint, profile))   # repetition
     return out
+
+
+def pool_histories(run, thorough, profile):
+    """scripted histories of ONE reused pool (a unit = one process): a warm-up that leaves the pool's
+    16-slot result ring at an arbitrary slot (in particular 15 results from one 16-thread call), then a series
+    of calls with 3..6 threads on inputs whose first job is slow and whose other jobs are fast (text at a
+    high quality followed by zeros, laid out along the job ranges), so that results arrive out of order while
+    the ring passes every slot and wraps several times; every call is a member of the group of its
+    (input, settings, thread count), whose reference is the inline spawner"""
+    rng = run.rng
+    units = []
+    for k in range(32 if thorough else 16):
+        workers = rng.choice([2, 3, 3, 4, 4, 6, 15])
+        sp = "poolr:%d" % workers
+        unit, refs = [], []
+        warm = [16] if k % 2 == 0 else [rng.randrange(2, 17) for _ in range(rng.randrange(1, 4))]
+        for tw in warm:
+            c = Case(sp, rng.choice([2, 4, 5]), 22, 0, tw, "text", rng.choice([20000, 150000]), rng.randrange(1, 1000), "bound", 0, profile)
+            unit.append(c)
+            refs.append(c.with_(sp="inl"))
+        shapes = []
+        for _ in range(3):
+            t = rng.choice([3, 3, 4, 4, 5, 6])
+            pat = rng.choice(["tz", "tz", "tz", "tzz", "tzt", "ztz", "mz", "tr"])
+            q = rng.choice([9, 9, 7, 5, 10])
+            chunk = rng.choice([40000, 90000, 150000]) if q < 10 else 30000
+            fav = rng.choice([0, 0, 8])
+            shapes.append(Case(sp, q, rng.choice([16, 20, 22]), fav, t, "lay.%d.%s" % (t, pat), chunk * t + rng.randrange(0, t), rng.randrange(1, 100000), "bound", 0, profile))
+        for c in shapes:
+            refs.append(c.with_(sp="inl"))
+            refs.append(c.with_(sp="pool"))
+        results = sum(c.t - 1 for c in unit)
+        while results < (70 if thorough else 44):       # every ring slot is passed more than twice
+            c = rng.choice(shapes).with_()
+            unit.append(c)
+            results += c.t - 1
+        units.append(unit + refs)
+    return units
 
 
 def check(run):
@@ -108,7 +200,8 @@ def check(run):
         "C06_favor assumes that the compressor does not see where its index came from and that the index comparison succeeds; "
         "both are what C06_hasher_* show on the hasher models of C19 (over the same data buffer; the view of the prefix as a separate "
         "slice is not modelled) and what every dev-profile run of this check tests through the code's own debug_assert",
-        "byte equality is decided on (length, 62-bit rolling hash) of the outputs; brotli-decompressor 4.0.3 decodes them"])
+        "byte equality is decided on (length, 62-bit rolling hash) of the outputs; brotli-decompressor 4.0.3 decodes them",
+        "harness multi.rs: wall-clock watchdog (a call that has not returned after 60 s + 1 s per 50 kB is answered NORETURN and its process ended)"])
     okmod, logmod, model = mc.build_model()
     if not okmod:
         run.note("model rebuild failed (%s)" % logmod[-300:])
@@ -116,9 +209,11 @@ def check(run):
             broken.append("extraction/driver build failed: " + logmod[-300:])
             ok_proof = False
     run.cov["rule"] = ("a group = (input recipe, quality, lgwin, catable/appendable/magic/large_window, size hint, thread count); its members are calls "
-                       "differing in spawner, pool reuse, favor_cpu_efficiency, build profile and repetition; distinct_nontrivial counts distinct groups "
+                       "differing in spawner, pool reuse (incl. scripted histories of one pool: more than 16 results, out-of-order completion), "
+                       "favor_cpu_efficiency, build profile and repetition; distinct_nontrivial counts distinct groups "
                        "with at least 2 threads and one input byte per thread whose members all returned")
     groups = gen_groups(run, thorough)
+    cuts = size_hint_cuts()
     exes = {}
     for prof in ("dev", "release"):
         okh, logh, impl = vlib.harness_build("multi", prof)
@@ -127,26 +222,38 @@ def check(run):
                        broken="harness multi does not build against /repo (hook verif_multi or public API changed?)", found_input=False)
             return
         exes[prof] = impl
-    results = {}   # group index -> list of (case, answer)
+    results = {}   # group key -> list of (case, answer)
     corr_reports = []
-    total, ntraces, ndis, nviol = 0, 0, 0, 0
+    total, ntraces, ndis, nviol, notrun, max_ms = 0, 0, 0, 0, 0, 0
+    budget = mc.HangBudget()
     reached = {"prefix_truncated": 0, "supplied_hasher_discarded_for_truncated_prefix": 0, "supplied_hasher_compared_dev": 0, "supplied_hasher_used_release": 0,
-               "supplied_hasher_kept_unseen": 0, "shared_range_skipped_or_empty": 0, "pool_reused": 0}
-    hist = {"quality": {}, "threads": {}, "lgwin": {}, "group_result": {}}
+               "supplied_hasher_kept_unseen": 0, "shared_range_skipped_or_empty": 0, "pool_reused": 0,
+               "pool_reused_after_more_than_16_results": 0, "pool_result_ring_wraps_during_call": 0, "pool_jobs_finished_out_of_order": 0,
+               "pool_ring_wraps_and_jobs_out_of_order": 0}
+    for k in cuts:
+        for side in ("below_or_at", "above"):
+            reached["favor_no_hint_whole_input_%s_2^%d" % (side, k)] = 0
+        reached["favor_no_hint_index_choice_would_differ_by_input_size_2^%d" % k] = 0
+        reached["favor_no_hint_whole_input_above_2^%d_and_shared_index_adopted_by_a_job" % k] = 0
+    hist = {"quality": {}, "threads": {}, "lgwin": {}, "group_result": {}, "input_len": {"0": 0, "1-9999": 0, "10000-399999": 0, "400000-1048576": 0, "1048577-4194304": 0, ">4194304": 0}}
+    scripted0 = pool_histories(run, thorough, "dev")
+    nscripted = len(scripted0)
     for prof in ("dev", "release"):
-        cases, owner = [], []
-        order = sorted(range(len(groups)), key=lambda gi: (heavy(groups[gi][3], groups[gi][4], groups[gi][1]), gi % vlib.NCPU))
-        for gi in order:
-            ms = members(run, groups[gi], prof)
-            cases.extend(ms)
-            owner.extend([gi] * len(ms))
+        units = [members(run, g, prof) for g in groups]
+        scripted = [[c.with_(profile=prof) for c in u] for u in scripted0]
+        units += scripted
+        cases = [c for u in units for c in u]
         t0 = time.time()
-        # contiguous chunks per process: consecutive poolr requests of a group meet the same (reused) pool
-        answers = mc.run_contiguous(exes[prof], cases)
-        run.note("profile %s: %d calls in %d groups in %.1fs" % (prof, len(cases), len(groups), time.time() - t0))
-        for c, a, gi in zip(cases, answers, owner):
+        # a unit stays in one process: consecutive poolr requests meet the same (reused) pool, and the pools live on for the next units
+        answers = mc.run_units(exes[prof], units, budget)
+        run.note("profile %s: %d calls in %d groups and %d scripted pool histories in %.1fs" % (prof, len(cases), len(groups), len(scripted), time.time() - t0))
+        for c, a in zip(cases, answers):
+            if a.notrun:
+                notrun += 1      # never an agreement: reported below
+                continue
             total += 1
-            results.setdefault(gi, []).append((c, a))
+            max_ms = max(max_ms, a.ms)
+            results.setdefault(c.group_key(), []).append((c, a))
             tr = mc.parse_events(a.ev)
             for i, h in tr["H"].items():
                 if h["size"] > h["dict"]:
@@ -163,11 +270,25 @@ def check(run):
             for p in tr["P"]:
                 if not p["st"]:
                     reached["shared_range_skipped_or_empty"] += 1
-            if c.sp.startswith("poolr"):
-                reached["pool_reused"] += 1
+            if c.sp.startswith("poolr") and a.served is not None:
+                reached["pool_reused"] += 1 if a.served > 0 else 0
+                wraps = (a.served % 16) + max(0, c.t - 1) > 16
+                reached["pool_reused_after_more_than_16_results"] += 1 if a.served > 16 else 0
+                reached["pool_result_ring_wraps_during_call"] += 1 if wraps else 0
+                reached["pool_jobs_finished_out_of_order"] += a.ooo
+                reached["pool_ring_wraps_and_jobs_out_of_order"] += 1 if (wraps and a.ooo) else 0
+            if (c.f & 8) and c.t >= 2 and c.hint == 0:
+                adopted = any(h["opt"] and (h["cmp"] or not h["local"]) for h in tr["H"].values())
+                for k in cuts:
+                    if adopted and c.n > (1 << k):
+                        reached["favor_no_hint_whole_input_above_2^%d_and_shared_index_adopted_by_a_job" % k] += 1
+                    reached["favor_no_hint_whole_input_%s_2^%d" % ("above" if c.n > (1 << k) else "below_or_at", k)] += 1
+                    lo, hi = (1 << k) - 1, (1 << k) + 1
+                    if c.n >= (1 << k) and hasher_choice(c.q, c.w, lo) != hasher_choice(c.q, c.w, hi) and hasher_choice(c.q, c.w, 0) != hasher_choice(c.q, c.w, c.n):
+                        reached["favor_no_hint_index_choice_would_differ_by_input_size_2^%d" % k] += 1
         # correspondence on the model: all favor members and every fourth of the others
         if os.path.exists(model):
-            sub = [(c, a) for k, (c, a) in enumerate(zip(cases, answers)) if a.kind != "TOOL" and c.n <= 400000 and ((c.f & 8) or k % 4 == 0)]
+            sub = [(c, a) for k, (c, a) in enumerate(zip(cases, answers)) if a.kind not in ("TOOL", "NORETURN", "?") and c.n <= 400000 and ((c.f & 8) or k % 4 == 0)]
             t1 = time.time()
             mlines, mans = mc.run_model(model, [x[0] for x in sub], [x[1] for x in sub], run.rng)
             run.note("profile %s: %d calls replayed on the model in %.1fs" % (prof, len(sub), time.time() - t1))
@@ -186,53 +307,87 @@ def check(run):
     # ---- search: every member of a group returns the same bytes
     nontriv = 0
     samples = []
-    for gi, ms in sorted(results.items()):
-        kind, n, seed, q, w, f, t, hint = groups[gi]
+    spec_reports = []
+    for gidx, gk in enumerate(sorted(results, key=lambda k: tuple(str(x) for x in k))):
+        ms = results[gk]
+        kind, n, seed, q, w, f, t, hint = gk[:8]
         hist["quality"][str(q)] = hist["quality"].get(str(q), 0) + 1
         hist["threads"][str(t)] = hist["threads"].get(str(t), 0) + 1
         hist["lgwin"][str(w)] = hist["lgwin"].get(str(w), 0) + 1
-        ref_c, ref_a = ms[0]
+        b = "0" if n == 0 else "1-9999" if n < 10000 else "10000-399999" if n < 400000 else "400000-1048576" if n <= (1 << 20) else "1048577-4194304" if n <= (1 << 22) else ">4194304"
+        hist["input_len"][b] += 1
+        # the reference: a member that returned, the inline spawner without the option first
+        order = sorted(range(len(ms)), key=lambda i: (ms[i][1].failed_to_return(), ms[i][0].sp != "inl", ms[i][0].f & 8, ms[i][0].profile != "dev", i))
+        ref_c, ref_a = ms[order[0]]
         bad = []
         for c, a in ms:
-            if a.kind in ("PANIC", "HANG", "TOOL"):
-                bad.append((c, a, "did not return: %s" % a.head[:160]))
+            if a.failed_to_return():
+                bad.append((0 if a.kind in ("NORETURN", "HANG") else 1, c, a, "did not return: %s" % a.head[:300]))
             elif a.same_bytes_key() != ref_a.same_bytes_key():
-                bad.append((c, a, "%s (hash %d) where `%s` gave %s (hash %d)" % (a.result_str(), a.h, ref_c.line(False)[2:60], ref_a.result_str(), ref_a.h)))
+                bad.append((1, c, a, "%s (hash %d) where `%s` (%s) gave %s (hash %d)" % (a.result_str(), a.h, ref_c.line(False)[2:90], ref_c.profile, ref_a.result_str(), ref_a.h)))
             elif a.kind == "OK" and a.dec != "ok":
-                bad.append((c, a, "output does not decode to the input"))
+                bad.append((1, c, a, "output does not decode to the input"))
         rk = ref_a.kind if ref_a.kind != "ERR" else "ERR:" + ref_a.err
         hist["group_result"][rk] = hist["group_result"].get(rk, 0) + 1
         if bad:
             nviol += 1
-            if nviol <= 6:
-                c, a, why = bad[0]
-                cd = c.case()
-                cd.update({"group": {"input": "%s:%d:%d" % (kind, n, seed), "quality": q, "lgwin": w, "flags": f, "threads": t, "size_hint": hint},
-                           "reference_line": ref_c.line(), "reference_profile": ref_c.profile, "differs": why,
-                           "differing_members": ["%s/%s/favor=%d: %s" % (x.sp, x.profile, 1 if x.f & 8 else 0, y.result_str()) for x, y, _ in bad[:12]]})
-                run.report("spec-violation", cd, {"impl": a.head[:400], "reference": ref_a.head[:400], "spec": "FAIL: " + why},
-                           what="same input, settings and thread count, different outcome: " + why[:300])
+            bad.sort(key=lambda x: x[0])
+            rank, c, a, why = bad[0]
+            cd = c.case()
+            cd.update({"group": {"input": "%s:%d:%d" % (kind, n, seed), "quality": q, "lgwin": w, "flags": f, "threads": t, "size_hint": hint},
+                       "reference_line": ref_c.line(), "reference_profile": ref_c.profile, "differs": why,
+                       "differing_members": ["%s/%s/favor=%d: %s" % (x.sp, x.profile, 1 if x.f & 8 else 0, y.result_str()[:200]) for _, x, y, _ in bad[:12]]})
+            if a.history and a.failed_to_return():
+                cd["history"] = a.history
+                cd["history_note"] = "requests that ran before on the same reused pool, in the same process, in this order"
+            spec_reports.append((rank, len(spec_reports), c, a, cd, ref_a, why))
         elif t >= 2 and n >= t:
             nontriv += 1
-        if len(samples) < 4 and gi % 97 == 0:
+        if len(samples) < 4 and gidx % 97 == 0:
             samples.append(ref_c.line(False))
+    # verdicts: failures with a concrete input first (calls that do not come back, then differing bytes), then the
+    # differences from the model only
+    for rank, _, c, a, cd, ref_a, why in sorted(spec_reports, key=lambda r: (r[0], r[1]))[:6]:
+        obs = {"impl": a.head[:600], "reference": ref_a.head[:400], "spec": "FAIL: " + why}
+        what = "same input, settings and thread count, different outcome: " + why[:300]
+        if a.kind == "NORETURN":
+            # the same call on a fresh pool, now: the outcome depends on what the pool served before
+            fresh = mc.run_impl(exes[c.profile], [c.with_()], shards=1)[0]
+            obs["same_request_alone_in_a_fresh_process"] = fresh.head[:300]
+            what = ("the call never returned on a pool that had served %d earlier calls of this process, while the same call returns %s on a fresh pool and `%s` returns %s: "
+                    "the outcome depends on the pool's history and the schedule" % (len(a.history), fresh.result_str()[:80], ref_c_line(cd), ref_a.result_str()[:80]))
+        run.report("spec-violation", cd, obs, what=what)
     for cd, obs, brk in corr_reports:
         run.report("correspondence", cd, obs, broken=brk, found_input=False)
+    if notrun:
+        run.report("proof-obligation", {"stage": "search", "requests_not_run": notrun}, {"hung_or_dead_processes": budget.used},
+                   broken="%d requests were not run because %d harness processes had hung or died (reported above, up to the report cap); they are not counted as checked" % (notrun, budget.used),
+                   found_input=False)
     run.cov["evaluations"] = total + ntraces
     run.cov["distinct_nontrivial"] = nontriv
     run.cov["traces_validated_against_impl"] = ntraces
-    run.cov["groups"] = len(groups)
-    run.cov["members_per_group"] = 26
+    run.cov["groups"] = len(results)
+    run.cov["generated_groups"] = len(groups)
+    run.cov["scripted_pool_histories_per_profile"] = nscripted
+    run.cov["members_per_group"] = "26 (13 per build profile; 12 for inputs above 400000 bytes); groups of the scripted pool histories: every call of the history + inline + fresh pool"
+    run.cov["size_hint_cut_points_read_from_ChooseHasher"] = ["2^%d" % k for k in cuts]
     run.cov["samples"] = samples or ["R sp=inl q=9 w=13 f=8 t=7 in=text:12288:1 out=bound"]
     run.cov["histograms"] = hist
     run.cov["reached"] = reached
     run.cov["unreached"] = [k for k, v in reached.items() if v == 0]
     run.cov["spec_violations"] = nviol
     run.cov["model_disagreements"] = ndis
-    run.note("%d groups, %d calls, %d groups with differing members, %d model disagreements; reached: %s" % (
-        len(groups), total, nviol, ndis, ", ".join("%s=%d" % kv for kv in reached.items())))
+    run.cov["requests_not_run"] = notrun
+    run.cov["harness_processes_hung_or_dead"] = budget.used
+    run.cov["max_call_ms"] = max_ms
+    run.note("%d groups, %d calls, %d groups with differing members, %d model disagreements, %d requests not run; reached: %s" % (
+        len(results), total, nviol, ndis, notrun, ", ".join("%s=%d" % kv for kv in reached.items())))
     if not ok_proof and not run.violations:
         run.report("proof-obligation", {"stage": "proof"}, {"broken": broken}, broken="; ".join(b[:400] for b in broken), found_input=False)
+
+
+def ref_c_line(cd):
+    return cd.get("reference_line", "?")[2:90]
 
 
 def replay(path):
@@ -246,15 +401,42 @@ def replay(path):
     vlib.coq_regen(GEN)
     _, _, model = mc.build_model()
     import random
-    rc = 0
     runs = [(line, prof)]
     if case.get("reference_line"):
         runs.append((case["reference_line"], case.get("reference_profile", "dev")))
     outs = []
-    for ln, pf in runs:
+    rc = 0
+    hist = case.get("history") or []
+    for ri, (ln, pf) in enumerate(runs):
         _, _, impl = vlib.harness_build("multi", pf)
         c = mc.case_from_line(ln, pf)
-        a = mc.run_impl(impl, [c], shards=1)[0]
+        if ri == 0 and hist:
+            # the outcome depended on what the pool had served before (and on the schedule): the same requests, in
+            # one process, up to three times
+            print("%d earlier requests on the same pool, in the same process:" % len(hist))
+            for h in hist:
+                print("   " + h)
+            for attempt in range(3):
+                seq = mc.run_sequence(impl, hist + [c.line()])
+                early = [i for i, x in enumerate(seq[:-1]) if x.failed_to_return()]
+                if early:
+                    print("attempt %d: already request %d of the history did not return: %s" % (attempt + 1, early[0] + 1, seq[early[0]].head[:300]))
+                    a = seq[early[0]]
+                    break
+                a = seq[-1]
+                print("attempt %d, after the history: %s" % (attempt + 1, a.head[:400]))
+                if a.failed_to_return():
+                    break
+            alone = mc.run_impl(impl, [c], shards=1)[0]
+            print("the request alone, in a fresh process: %s" % alone.head[:300])
+            if a.kind in ("NORETURN", "TOOL"):
+                print("request: %s   (profile %s)" % (c.line(), pf))
+                print("impl:  %s" % a.text[:3000])
+                outs.append(a)
+                rc = 1
+                continue
+        else:
+            a = mc.run_impl(impl, [c], shards=1)[0]
         ml = mc.model_line(c, a, random.Random(1))
         ma = vlib.run_lines(model, [ml], shards=1)[0]
         diffs = mc.compare(c, a, ma)
